@@ -57,7 +57,10 @@ def invalid_class(msg):
     if m:
         a = m.group(1)
         if m.group(2) == 'SCOPE' and a != 'ANY':
-            a = '(not a DSP0201 scope)'
+            if a.upper() in ('ANY', 'CLASS', 'ASSOCIATION', 'REFERENCE', 'PROPERTY', 'METHOD', 'PARAMETER', 'INDICATION'):
+                a = '(scope name not upper-cased)'      # the name is a scope, the attribute name is not the declared one
+            else:
+                a = '(not a DSP0201 scope)'
         return 'undeclared_attribute:%s@%s' % (a, m.group(2))
     m = re.match(r'Element (\S+) content does not follow the DTD', msg)
     if m:
@@ -71,6 +74,9 @@ def invalid_class(msg):
     m = re.match(r'Value "(.*)" for attribute (\S+) of (\S+) is not among the enumerated set', msg)
     if m:
         return 'enum:%s@%s' % (m.group(2), m.group(3))
+    m = re.match(r'Syntax of value for attribute (\S+) of (\S+) is not valid', msg)
+    if m:
+        return 'attr_syntax:%s@%s' % (m.group(1), m.group(2))
     m = re.match(r'No declaration for element (\S+)', msg)
     if m:
         return 'undeclared_element:%s' % m.group(1)
@@ -379,6 +385,108 @@ def bad_type_objects(rng, g):
     return out
 
 
+def _count(counts, key):
+    if counts is not None:
+        counts[key] = counts.get(key, 0) + 1
+
+
+def setter_mutated_objects(rng, g, counts=None):
+    """mutation histories: a validly constructed object, then attribute assignments through the setters with values the
+    constructor would refuse (or the edge values '' / None); whatever the setters accept must still be encoded validly
+    or refused by tocimxml()"""
+    import pywbem
+    out = []
+    base = rng.choice(['method', 'prop', 'param', 'qual', 'qdecl', 'inst', 'cls', 'path', 'classname'])
+    o = {'method': lambda: pywbem.CIMMethod(g.name('M'), 'uint8'),
+         'prop': lambda: pywbem.CIMProperty(g.name('P'), None, type='string', is_array=rng.random() < 0.4),
+         'param': lambda: pywbem.CIMParameter(g.name('A'), 'string', is_array=rng.random() < 0.4),
+         'qual': lambda: pywbem.CIMQualifier(g.name('Q'), None, type='string'),
+         'qdecl': lambda: pywbem.CIMQualifierDeclaration(g.name('Q'), 'string', scopes={'CLASS': True}),
+         'inst': lambda: pywbem.CIMInstance(g.name('C'), path=pywbem.CIMInstanceName('C', {'k': 1})),
+         'cls': lambda: pywbem.CIMClass(g.name('C')),
+         'path': lambda: pywbem.CIMInstanceName(g.name('C'), {'k': 1}, namespace='n', host='h'),
+         'classname': lambda: pywbem.CIMClassName(g.name('C'), namespace='n', host='h')}[base]()
+    edits = {
+        'method': [('return_type', ['reference', 'String', '', None, b'reference', b'uint8']), ('name', ['', None, b'm']),
+                   ('class_origin', ['', b'C'])],
+        'prop': [('type', ['reference', 'String', '', None, b'uint8']), ('embedded_object', ['', 'foo', 'object', b'instance']),
+                 ('name', ['', None]), ('reference_class', ['', 'C']), ('is_array', [None, True]), ('array_size', [0, 'x'])],
+        'param': [('type', ['reference', 'UINT8', '', None, b'reference']), ('embedded_object', ['', 'foo']),
+                  ('name', ['', None]), ('is_array', [None, True]), ('array_size', [0])],
+        'qual': [('type', ['reference', 'String', None, b'string']), ('name', ['', None]), ('propagated', ['x', 1])],
+        'qdecl': [('type', ['reference', 'String', None]), ('is_array', [None, 'x']), ('name', ['', None]),
+                  ('scopes', [{'class': True}, {'foo': True}, {'any': False}])],
+        'inst': [('classname', ['', None, b'C'])],
+        'cls': [('classname', ['', None]), ('superclass', ['', b'S'])],
+        'path': [('host', ['', b'h']), ('namespace', ['', '/', b'n']), ('classname', ['', None])],
+        'classname': [('host', ['']), ('namespace', ['', b'n/m']), ('classname', ['', None])],
+    }[base]
+    for _ in range(rng.choice([1, 1, 2])):
+        attr, vals = rng.choice(edits)
+        v = rng.choice(vals)
+        try:
+            setattr(o, attr, v)
+            _count(counts, 'gen:setter_accepted:%s.%s' % (base, attr))
+        except Exception as e:  # noqa: the setter refuses: the documented outcome
+            _count(counts, 'gen:setter_refused:%s.%s:%s' % (base, attr, type(e).__name__))
+    out.append(o)
+    try:
+        if isinstance(o, pywbem.CIMMethod):
+            out.append(pywbem.CIMClass(g.name('C'), methods=[o]))
+        elif isinstance(o, pywbem.CIMProperty):
+            out.append(pywbem.CIMClass(g.name('C'), properties=[o]))
+            out.append(pywbem.CIMInstance(g.name('C'), properties=[o]))
+        elif isinstance(o, pywbem.CIMParameter):
+            out.append(pywbem.CIMClass(g.name('C'), methods=[pywbem.CIMMethod('m', 'uint8', parameters=[o])]))
+        elif isinstance(o, pywbem.CIMQualifier):
+            out.append(pywbem.CIMClass(g.name('C'), qualifiers=[o]))
+        elif isinstance(o, pywbem.CIMInstanceName):
+            out.append(pywbem.CIMInstance(g.name('C'), path=o))
+    except Exception:  # noqa
+        pass
+    return out
+
+
+def bytes_argument_objects(rng, g, counts=None):
+    """byte strings for the name- and type-like constructor arguments (pywbem converts them with _ensure_unicode)"""
+    import pywbem
+    out = []
+    makers = [
+        lambda: pywbem.CIMMethod(b'm', return_type=b'reference'),
+        lambda: pywbem.CIMMethod(b'm', return_type=b'uint8', class_origin=b'C'),
+        lambda: pywbem.CIMMethod('m', return_type=b'String'),
+        lambda: pywbem.CIMProperty(b'p', None, type=b'string'),
+        lambda: pywbem.CIMProperty(b'p', None, type=b'reference', is_array=True),
+        lambda: pywbem.CIMProperty('p', b'v'),
+        lambda: pywbem.CIMProperty('p', None, type='string', embedded_object=b''),
+        lambda: pywbem.CIMParameter(b'a', b'reference', is_array=True),
+        lambda: pywbem.CIMParameter(b'a', b'uint8'),
+        lambda: pywbem.CIMQualifier(b'q', None, type=b'reference'),
+        lambda: pywbem.CIMQualifier(b'q', b'v'),
+        lambda: pywbem.CIMQualifierDeclaration(b'q', b'reference'),
+        lambda: pywbem.CIMQualifierDeclaration(b'q', b'string', scopes={b'class': True}),
+        lambda: pywbem.CIMClass(b'C', superclass=b'S'),
+        lambda: pywbem.CIMInstance(b'C', properties=[pywbem.CIMProperty(b'p', b'v')]),
+        lambda: pywbem.CIMInstanceName(b'C', {b'k': b'v'}, namespace=b'a/b', host=b'h'),
+        lambda: pywbem.CIMClassName(b'C', namespace=b'/a/', host=b''),
+    ]
+    for mk in rng.sample(makers, 3):
+        try:
+            o = mk()
+        except Exception as e:  # noqa
+            _count(counts, 'gen:bytes_refused_by_constructor:' + type(e).__name__)
+            continue
+        out.append(o)
+        try:
+            if isinstance(o, pywbem.CIMMethod):
+                out.append(pywbem.CIMClass('C', methods=[o]))
+            elif isinstance(o, pywbem.CIMProperty):
+                out.append(pywbem.CIMClass('C', properties=[o]))
+        except Exception:  # noqa
+            pass
+    return out
+
+
 def near_miss_objects(rng, n, counts=None):
     """objects at the edge of what has a CIM-XML representation"""
     import pywbem
@@ -387,7 +495,8 @@ def near_miss_objects(rng, n, counts=None):
     for i in range(n):
         k = rng.choice(['scope_odd', 'scope_any_false', 'scope_dup', 'refarray_prop', 'keyless', 'nonekey', 'host_only',
                         'emb_obj', 'arraysize', 'empty_names', 'param_value', 'empty_host', 'empty_host', 'empty_strings',
-                        'bad_type', 'bad_type', 'bad_type'])
+                        'bad_type', 'bad_type', 'bad_type', 'setter', 'setter', 'setter', 'bytes', 'bytes', 'scope_case',
+                        'emb_attr'])
         try:
             if k == 'scope_odd':
                 out.append(pywbem.CIMQualifierDeclaration(g.name('Q'), 'string', scopes={rng.choice(['foo', 'Classs', 'a-b', 'x.y']): True}))
@@ -434,6 +543,29 @@ def near_miss_objects(rng, n, counts=None):
                 ])())
             elif k == 'bad_type':
                 out += bad_type_objects(rng, g)
+            elif k == 'setter':
+                out += setter_mutated_objects(rng, g, counts)
+            elif k == 'bytes':
+                out += bytes_argument_objects(rng, g, counts)
+            elif k == 'scope_case':
+                names = rng.sample(['class', 'Association', 'rEFERENCE', 'property', 'Method', 'parameter', 'indication'],
+                                   rng.choice([1, 2, 3]))
+                out.append(pywbem.CIMQualifierDeclaration(g.name('Q'), 'string',
+                                                          scopes={n: rng.random() < 0.6 for n in names}))
+            elif k == 'emb_attr':
+                e = rng.choice(['', 'foo', 'Instance', 'OBJECT', ' instance'])
+                mk = rng.choice([
+                    lambda: pywbem.CIMProperty(g.name('P'), None, type='string', embedded_object=e),
+                    lambda: pywbem.CIMProperty(g.name('P'), None, type='string', is_array=True, embedded_object=e),
+                    lambda: pywbem.CIMParameter(g.name('A'), 'string', value='x', embedded_object=e),
+                    lambda: pywbem.CIMParameter(g.name('A'), 'string', embedded_object=e),
+                ])
+                o = mk()
+                out.append(o)
+                if isinstance(o, pywbem.CIMProperty):
+                    out.append(pywbem.CIMInstance(g.name('C'), properties=[o]))
+                else:
+                    out.append(('pv', o))
             else:
                 out.append(('pv', g.parameter(as_value=True)))
         except Exception as e:  # noqa: constructor refuses: nothing to encode
